@@ -61,6 +61,16 @@ func TestC04Proc(t *testing.T) {
 				}
 			}
 		}
+		// frozen right after Start: no protocol client exists yet when Kill is called (with and without AutoMTLS)
+		for _, tl := range []string{"none", "auto"} {
+			cells = append(cells, Cell{
+				Name:   fmt.Sprintf("%s launch=cmd tls=%s plugin=frozen before the first Client()", proto, tl),
+				Plugin: PluginConf{CookieKey: cookieKey, CookieValue: cookieVal, Legacy: 1, LegacyProto: proto, GRPCServer: true, TLS: "none"},
+				Host:   HostConf{Allowed: []string{"netrpc", "grpc"}, TLS: tl, Launch: "cmd", Legacy: 1, SkipHostEnv: true},
+				Ops:    []string{"new", "start", "sigstop", "kill", "proc?"},
+			})
+			exp = append(exp, beh{name: "frozen-early", maxKillMs: 60000})
+		}
 		// CleanupClients over managed clients, one per launch method (the reattached one must be killed as well)
 		for _, launch := range []string{"cmd", "runner", "reattach"} {
 			ops := []string{"new", "start", "client", "dispense", "set:1"}
